@@ -470,7 +470,7 @@ M('C17', 'beacon-from-clock', SEC,
                 SignedEntityType::MithrilStakeDistribution(time_point.epoch)
             }""", ['beacon:purity'], 'clock read in the beacon function')
 M('C17', 'roles-swapped', SEC,
-  'compute_block_number_to_be_signed(block_number, self.security_parameter, self.step)', 'compute_block_number_to_be_signed(self.step, self.security_parameter, block_number)', ['formula-args'], 'tip and step swapped')
+  'compute_block_number_to_be_signed(block_number, self.security_parameter, self.step)', 'compute_block_number_to_be_signed(self.step, self.security_parameter, block_number)', ['beacon:formula'], 'tip and step swapped')
 
 # ---------------------------------------------------------------- C19
 ANV = 'mithril-client/src/utils/ancillary_verifier.rs'
